@@ -341,7 +341,10 @@ class _State(object):
         if isinstance(n, ast.UnaryOp):
             if isinstance(n.op, ast.Not):
                 return ("not", self.expr(n.operand))
-            return ("unop", type(n.op).__name__, self.expr(n.operand))
+            v = self.expr(n.operand)
+            if isinstance(n.op, ast.USub) and v[0] == "const" and isinstance(v[1], (int, float)):
+                return ("const", -v[1])
+            return ("unop", type(n.op).__name__, v)
         if isinstance(n, ast.BoolOp):
             return ("bool", "and" if isinstance(n.op, ast.And) else "or", tuple(self.expr(v) for v in n.values))
         if isinstance(n, ast.Compare):
